@@ -164,6 +164,7 @@ func newChain() *chain {
 	if err != nil {
 		panic(err)
 	}
+	os.RemoveAll(dir) // the file is read once (no refresh interval)
 	c.pxa = viaListener(&proxy.HTTPProxy{
 		// (proxy.header.sts.maxage is configured too: on a plain listener fabio adds no such header,
 		// and what the upstream says about it is the upstream's business)
